@@ -367,7 +367,7 @@ W_T = [("honest", 120, 70), ("chaos", 160, 70), ("admin", 80, 70)]
 FLOW_MC = ["flow_long_t", "flow_amounts_t", "flow_t", "flow_treasury_t", "flow_extras_t", "flow_time_t", "flow_resume_t"]
 FLOW_EMIT = ["flow_t", "flow_extras_t", "flow_time_t"]
 IBC_MC = ["ibc_t", "ibc2_t"]
-IBC_EMIT = ["ibc2_t"]
+IBC_EMIT = ["ibc2_t", "ibc_t"]
 GATE_MC = ["gate_t", "gateadmin_t"]
 GATE_EMIT = ["gate_q", "gateadmin_t"]
 PLANS = {
